@@ -59,6 +59,43 @@ def part_b(tier, out):
     return summ, code, viol
 
 
+def part_b2(tier):
+    """S1 pipelines on real threads, natively: build on one thread, mutate on a second, render on a
+    third — never two threads at once, hence deterministic. Reaches per-thread state
+    (thread_local!), which shuttle cannot show because all its tasks share one OS thread."""
+    r = sh("cargo build --release --features ts --bin miri_scn --target-dir target-ts", cwd=SIM)
+    if r.returncode != 0:
+        return {"build_failed": True, "stderr": r.stderr[-1500:]}, 2, None
+    n = 4000 if tier == "quick" else 200000
+    try:
+        r = sh(f"./target-ts/release/miri_scn {SEED} 0 {n} pipeline", cwd=SIM, timeout=600 if tier == "quick" else 7200)
+    except subprocess.TimeoutExpired:
+        return {"blocked": True}, 2, None
+    res = {"pipelines": n, "exit": r.returncode}
+    if r.returncode == 0:
+        return res, 0, None
+    findings = [l for l in r.stdout.splitlines() if "FINDINGS" in l]
+    progs = sorted(set(int(m.group(1)) for m in (re.match(r"program (\d+) ", l) for l in findings) if m))
+    real = []
+    for pnum in progs[:20]:
+        rb = sh(f"./target-ts/release/miri_scn {SEED} {pnum} 1 pipeline-baseline", cwd=SIM)
+        if rb.returncode == 0:
+            real.append(pnum)
+    res["programs_with_findings"] = len(progs)
+    res["of_which_clean_without_threads"] = real
+    if not findings:
+        res["stderr"] = r.stderr[-1500:]
+        return res, 2, None
+    if not real:
+        res["note"] = "mismatches also occur without threads: not a C20 matter"
+        return res, 0, None
+    path = f"{ROOT}/replays/C20/pipeline-{SEED}.json"
+    first = [l for l in findings if l.startswith(f"program {real[0]} ")]
+    json.dump({"property": "C20", "mode": "pipeline", "seed": SEED, "program": real[0], "finding": first[:1]}, open(path, "w"), indent=1)
+    print("pipeline:", first[0][:300])
+    return res, 1, f"VIOLATION property=C20 replay={path}"
+
+
 MIRI_ERR = re.compile(r"error: (Undefined Behavior|unsupported operation|.*[Dd]ata race|memory leaked|deadlock|the evaluated program)")
 
 
@@ -153,6 +190,15 @@ def main():
         elif cb == 2 and code == 0:
             print("HARNESS (thsim):", json.dumps(b)[:1500], file=sys.stderr)
             code = 2
+    b2 = {}
+    if code == 0:
+        b2, c2, v2 = part_b2(tier)
+        if c2 == 1:
+            viol_lines.append(v2)
+            code = 1
+        elif c2 == 2:
+            print("HARNESS (pipelines):", json.dumps(b2)[:1500], file=sys.stderr)
+            code = 2
     if code == 0:
         c, cc, vc = part_c(tier, None)
         if cc == 1:
@@ -185,6 +231,7 @@ def main():
             "trusted_base": ["rustc", "shuttle 0.9.3", "Miri (nightly)", "scan of /repo/src for public types"],
             "part_A_obligations": {k: v for k, v in a.items() if k != "samples"},
             "part_B_shuttle": b,
+            "part_B2_native_pipelines": b2,
             "part_C_miri": c,
             "simulated_time": f"{b.get('executions', 0)} shuttle executions (the system has no clock)",
             "real_components": ["sea-query with feature thread-safe (current /repo working tree)", "std::sync::Arc", "rustc trait solver"],
@@ -231,6 +278,16 @@ def replay(path):
                 print(f"VIOLATION property=C20 replay={path}")
                 return 1
         print("obligations hold on this tree")
+        return 0
+    if mode == "pipeline":
+        sh("cargo build --release --features ts --bin miri_scn --target-dir target-ts", cwd=SIM)
+        r = sh(f"./target-ts/release/miri_scn {tr['seed']} {tr['program']} 1 pipeline", cwd=SIM)
+        rb = sh(f"./target-ts/release/miri_scn {tr['seed']} {tr['program']} 1 pipeline-baseline", cwd=SIM)
+        sys.stdout.write(r.stdout[-1500:])
+        if r.returncode == 1 and rb.returncode == 0:
+            print(f"VIOLATION property=C20 replay={path}")
+            return 1
+        print("pipeline replay clean on this tree")
         return 0
     if mode == "miri":
         s = tr.get("failing_miri_seed")
